@@ -1,6 +1,7 @@
 /* C19 harness: hwloc_shmem_topology_get_length / write / adopt on the real library.
  * Script on stdin (same configuration / "pre <op>" lines as hwv_dup.c, whose code is included):
  *   new / <config> / load / pre <op> ...
+ *   sweep <first> <count>   for i in first..first+count-1: root info "hwvpad" of 7+8i bytes, then the length/write/file part of "shmem 0"
  *   shmem <k>       store A in a file at offset k pages, adopt it in a forked child, exercise the adopted copy:
  *     length rc= len=                    hwloc_shmem_topology_get_length
  *     allocseq0 n s...                   sizes requested by hwloc__topology_dup(A) under a logging tma: what get_length counts
@@ -217,6 +218,7 @@ static int check_file(void *a)
 {
   struct fc *c = a; struct stat sb; static unsigned char buf[65536]; size_t bad = 0, o, lo; int pre_ok = 1, suf_ok = 1; size_t hdr = 24; ssize_t n, i2;
   fstat(c->fd, &sb);
+  { uint32_t hl = 0; if (pread(c->fd, &hl, 4, (off_t)c->off + 4) == 4 && hl >= 24 && hl < 4096) hdr = hl; }   /* header_length as written */
   lo = c->off > c->pagesz ? c->off - c->pagesz : 0;
   for (o = lo; o < c->off; o += (size_t)n) { n = pread(c->fd, buf, c->off - o < sizeof buf ? c->off - o : sizeof buf, (off_t)o); if (n <= 0) { pre_ok = 0; break; } for (i2 = 0; i2 < n; i2++) if (buf[i2] != 0xA5) pre_ok = 0; }
   for (o = c->off + hdr + c->used; o < c->off + c->len && !bad; o += (size_t)n) { n = pread(c->fd, buf, c->off + c->len - o < sizeof buf ? c->off + c->len - o : sizeof buf, (off_t)o); if (n <= 0) break; for (i2 = 0; i2 < n; i2++) if (buf[i2]) { bad = o + (size_t)i2; break; } }
@@ -228,11 +230,11 @@ static int check_file(void *a)
   return 0;
 }
 
-static void do_shmem(hwloc_topology_t A, unsigned k)
+static void do_shmem(hwloc_topology_t A, unsigned k, int full)
 {
   size_t len = 0, pagesz = (size_t)sysconf(_SC_PAGESIZE), used = 0; int rc, fd, st; char tmpl[] = "/tmp/hwv-shm-XXXXXX";
   unsigned long long off = (unsigned long long)k * pagesz; char *region; struct wr w; struct ad d; unsigned i;
-  printf("shmem offset=%u\n", k);
+  if (full) printf("shmem offset=%u\n", k);
   errno = 0; rc = hwloc_shmem_topology_get_length(A, &len, 0);
   printf("length rc=%d len=%zu\n", rc, len);
   if (rc < 0) return;
@@ -269,8 +271,10 @@ static void do_shmem(hwloc_topology_t A, unsigned k)
   if (st < 0) printf("write SIG%d\n", -st);
   { struct fc c; c.fd = fd; c.off = off; c.len = len; c.used = used; c.pagesz = pagesz; in_child(check_file, &c); }   /* in a child: no allocation may land in the freed range */
   ORIG = A; d.fd = fd; d.off = off; d.addr = region; d.len = len; d.pagesz = pagesz;
-  st = in_child(adopt_and_exercise, &d);
-  if (st < 0) printf("adopter SIG%d\n", -st);
+  if (full) {
+    st = in_child(adopt_and_exercise, &d);
+    if (st < 0) printf("adopter SIG%d\n", -st);
+  }
   munmap(region + len, pagesz);
   close(fd);
 }
@@ -291,7 +295,20 @@ int main(void)
       printf("pre %s rc=%d errno=%s\n", h ? "ok" : "unknown-op", rc, rc < 0 ? hwv_errno_class(e) : "0");
     } else if (!strncmp(line, "shmem ", 6)) {
       if (!loaded) printf("shmem notloaded\n");
-      else { fputs("A\n", stdout); hwv_dump_topology(stdout, A, 0); do_shmem(A, (unsigned)atoi(line + 6)); }
+      else { fputs("A\n", stdout); hwv_dump_topology(stdout, A, 0); do_shmem(A, (unsigned)atoi(line + 6), 1); }
+    } else if (!strncmp(line, "sweep ", 6)) {
+      /* size sweep: the value of a root info grows 8 bytes at a time, so that (header + body) visits every 8-byte residue of the
+         page; per size: get_length, the logged requests, the write next to the PROT_NONE page, the file check (no adoption) */
+      unsigned first = 0, count = 0, i2;
+      if (!loaded || sscanf(line + 6, "%u %u", &first, &count) != 2) printf("sweep bad\n");
+      else for (i2 = first; i2 < first + count; i2++) {
+        size_t l = 7 + 8 * (size_t)i2; char *v = malloc(l + 1);
+        memset(v, 'x', l); v[l] = 0;
+        hwloc_modify_infos(&hwloc_get_root_obj(A)->infos, HWLOC_MODIFY_INFOS_OP_REPLACE, "hwvpad", v);
+        free(v);
+        printf("sweep step=%u\n", i2);
+        do_shmem(A, 0, 0);
+      }
     } else if (A) {
       int r = hwv_config_line(A, line);
       if (r == 0) printf("unknown-command %s\n", line);
